@@ -95,6 +95,34 @@ macro_rules! path_fam {
 				zero_copy($f, &format!("{tag}.directory.zero_copy"), sb, directory.as_bytes());
 				if let Some(x) = parent { zero_copy($f, &format!("{tag}.parent.zero_copy"), sb, x.as_bytes()); }
 				zero_copy($f, &format!("{tag}.parent_or_empty.zero_copy"), sb, parent_or_empty.as_bytes());
+				// ---- == between VIEWS OF ONE BUFFER (a path and its parent / directory start at the same
+				// ---- address): the answer must be the one freshly allocated copies give, and agree with cmp
+				{
+					const C0708: &[&str] = &["C07", "C08"];
+					for (what, v) in [("parent_or_empty", Some(parent_or_empty)), ("directory", Some(directory)), ("parent", parent)] {
+						if let Some(v) = v {
+							let a = PathBuf::new(v.as_str().to_string().into()).expect("view");
+							let b = PathBuf::new($s.to_string().into()).expect("path");
+							let fresh = *a == *b;
+							$f.eq(C0708, &format!("{tag}.eq.{what}_vs_self"), *v == *p, fresh);
+							$f.eq(C0708, &format!("{tag}.eq.self_vs_{what}"), *p == *v, fresh);
+							$f.eq(C0708, &format!("{tag}.cmp.{what}_vs_self"), v.cmp(p) == std::cmp::Ordering::Equal, fresh);
+						}
+					}
+				}
+				// ---- internal iteration (fold / rfold / rev().for_each) sees the same sequence as next()
+				{
+					let all = seq_texts(&$case["segs"]);
+					let f1: Vec<String> = p.segments().fold(Vec::new(), |mut v, s| { v.push(s.as_str().to_string()); v });
+					$f.eq(C12, &format!("{tag}.segments.fold"), &f1, &all);
+					let mut r1: Vec<String> = p.segments().rfold(Vec::new(), |mut v, s| { v.push(s.as_str().to_string()); v });
+					r1.reverse();
+					$f.eq(C12, &format!("{tag}.segments.rfold"), &r1, &all);
+					let mut r2: Vec<String> = Vec::new();
+					p.segments().rev().for_each(|s| r2.push(s.as_str().to_string()));
+					r2.reverse();
+					$f.eq(C12, &format!("{tag}.segments.rev.for_each"), &r2, &all);
+				}
 				// ---- normalisation (C09)
 				let nsegs = seq_texts(&$case["nsegs"]);
 				let it = p.normalized_segments();
@@ -127,6 +155,15 @@ macro_rules! path_fam {
 					back.reverse();
 					front.extend(back);
 					$f.eq(C09, &format!("{tag}.normalized_segments.alternating_ends"), &front, &nsegs);
+					let f1: Vec<String> = p.normalized_segments().fold(Vec::new(), |mut v, s| { v.push(s.as_str().to_string()); v });
+					$f.eq(C09, &format!("{tag}.normalized_segments.fold"), &f1, &nsegs);
+					let mut r1: Vec<String> = p.normalized_segments().rfold(Vec::new(), |mut v, s| { v.push(s.as_str().to_string()); v });
+					r1.reverse();
+					$f.eq(C09, &format!("{tag}.normalized_segments.rfold"), &r1, &nsegs);
+					let mut r2: Vec<String> = Vec::new();
+					p.normalized_segments().rev().for_each(|s| r2.push(s.as_str().to_string()));
+					r2.reverse();
+					$f.eq(C09, &format!("{tag}.normalized_segments.rev.for_each"), &r2, &nsegs);
 					$f.ok(C12, &format!("{tag}.normalized_segments.exact_size"), lens_ok, || json!($s));
 					if nsegs.len() >= 2 {
 						let mut it = p.normalized_segments();
